@@ -561,7 +561,26 @@ class Ctx:
                     st.counters['violations_raw'] += 1
                     continue
                 case = case or case_fn()
-                st.violation(sig, case, f'{msg} [case {describe(case)}]')
+                small = self.minimise(key, case)
+                if small:
+                    st.violation(sig, small[0], small[1])
+                else:
+                    st.violation(sig, case, f'{msg} [case {describe(case)}]')
+
+    def minimise(self, sigkey, case):
+        """Witness minimisation: the same entry point and name set on the shortest content, delivered
+        in one read with hint 0, if that reproduces the same signature.  -> (case, message) | None"""
+        for n in (0, 1, 2, COMP_MAX + 1):
+            if n >= case['L']:
+                break
+            c2 = dict(case, L=n)
+            if 'hint' in c2:
+                c2.update(hint=0, sched=['whole', 0, []], peek=0)
+            self.stats.counters['witness_minimisation_runs'] += 1
+            for r in replay(c2, os.path.join(self.scratch, 'minimise')):
+                if json.dumps(jsonable(r['sig']), sort_keys=True) == sigkey:
+                    return c2, r['message']
+        return None
 
     def scripted(self, entry, L, data, kind, names, hint, sched, peek=0):
         label, step, cuts = sched
@@ -579,7 +598,7 @@ class Ctx:
         self.record(entry, L, kind, names, what, got, viols,
                     lambda: make_case(entry, self.seed, L, kind, names, hint, sched, peek),
                     (entry, L, kind, names, hint, step, cuts, peek))
-        if len(st.samples) < 2 and raw.chunks > 2 and L > 4:
+        if len(st.samples) < 2 and raw.chunks > 2 and L > 4 and label != 'whole' and what == 'digest':
             st.sample({'entry': entry, 'length': L, 'names': list(names), 'hint': hint,
                        'schedule': label, 'step': step, 'cuts': list(cuts[:12]), 'peek': peek,
                        'reads_returning_data': raw.chunks, 'verdict': what, 'got': got})
